@@ -276,9 +276,17 @@ func c10Stale(c *core.Ctx, d c10Decoder, r *core.RNG, mode int) {
 	if p, _ := core.Guard(func() { e0 = d.dec(reused, append([]byte{}, b1...)) }); p || e0 != nil {
 		return
 	}
+	// a caller that kept the first result by value (kept := *v) before decoding the next input
+	// into the same variable: what it kept is a decoded value like any other
+	kept := reflect.New(reflect.TypeOf(reused).Elem())
+	kept.Elem().Set(reflect.ValueOf(reused).Elem())
+	keptBefore := core.Dump(kept.Interface())
 	if p, msg := core.Guard(func() { e1 = d.dec(reused, append([]byte{}, b2...)) }); p {
 		c.Violate("C10|stale|panic|"+d.name, "%s", short(msg, 300))
 		return
+	}
+	if now := core.Dump(kept.Interface()); now != keptBefore {
+		c.Violate("C10|kept-copy-changed|"+d.name, "a %s decoded from %x and kept by value changed when the same variable was used to decode %x (err=%v):\n kept before %s\n kept now    %s", d.name, b1, b2, e1, short(keptBefore, 400), short(now, 400))
 	}
 	core.Guard(func() { e2 = d.dec(fresh, append([]byte{}, b2...)) })
 	if (e1 == nil) != (e2 == nil) {
